@@ -168,6 +168,10 @@ def explore_program(item):
             reqs = [("user", "Stop"), ("user", "Pause"), ("user", "Restart")]
             for k in range(n_items):
                 reqs += [("cancel", k), ("force", k)]
+            if t <= 1:
+                # the user saves the (unchanged) method right after Start, before the first instruction has started: a plain set,
+                # not a live-edit merge (merges are C01's business)
+                reqs += [("edit", tuple((f"L{i}", c) for i, c in enumerate(lines)))]
             if t <= 10:
                 reqs += [("inject", "Mark: j"), ("inject", "Inst\nMark: j"), ("inject", "Long: 2")]
             for req in reqs:
@@ -221,7 +225,7 @@ def run(ctx):
     ctx.coverage.update(
         states=execs * HORIZON, transitions=execs * HORIZON, traces_validated_against_impl=execs,
         evaluations=execs, distinct_nontrivial=nontrivial, programs=len(items),
-        rule="each program alone and with one request (Stop/Pause/Restart, cancel or force of run-log item k, code injected at ticks <= 10: Mark / Inst+Mark / Long) at every tick; the "
+        rule="each program alone and with one request (Stop/Pause/Restart, cancel or force of run-log item k, code injected at ticks <= 10: Mark / Inst+Mark / Long, the unchanged method saved again before tick 1) at every tick; the "
              "run log is produced and checked after every tick (states = ticks observed); non-trivial = executions with a deviation",
         samples=[items[1][0], items[len(items) // 2][0], items[-1][0]], exhaustive=True, horizon=HORIZON)
     ctx.assumptions += ["X becomes 2.0 at tick 4", "one deviation per execution"]
